@@ -48,23 +48,38 @@ def mc_cfg(n, ops, runs, mode):
 
 
 def model_check(ctx):
-    W = 2 if (ctx.quick or LIGHT) else 6
+    W = 2 if (ctx.quick or LIGHT) else 4
     if ctx.quick:
-        vf.mc(ctx, "MC_NodeImport", mc_cfg(3, 4, 2, "rollback_head"), workers=W, timeout=600, heap="3g", label="MC_NodeImport/head-N3")
+        holds = [(3, 4, 2, "head-N3")]
         refute = [("norollback", 3, 4)]
     else:
-        vf.mc(ctx, "MC_NodeImport", mc_cfg(3, 7, 3, "rollback_head"), workers=W, timeout=2400, heap="6g", label="MC_NodeImport/head-N3")
-        vf.mc(ctx, "MC_NodeImport", mc_cfg(4, 4, 2, "rollback_head"), workers=W, timeout=2400, heap="6g", label="MC_NodeImport/head-N4")
+        holds = [(3, 7, 3, "head-N3"), (4, 4, 2, "head-N4")]
         refute = [("norollback", 3, 5), ("rollback_parent", 3, 5), ("rollback_state", 3, 5)]
+
+    def hold(h):
+        n, ops, runs, label = h
+        vf.mc(ctx, "MC_NodeImport", mc_cfg(n, ops, runs, "rollback_head"), workers=W, timeout=2400, heap="6g", label="MC_NodeImport/" + label)
+
     # the invariant is not vacuous: TLC must refute the designs that do not roll back (far enough)
-    for mode, n, ops in refute:
-        r = vf.mc(ctx, "MC_NodeImport", mc_cfg(n, ops, 2, mode), workers=W, timeout=600, heap="3g", expect_ok=False, label="MC_NodeImport/refute-" + mode)
+    def refuted(m):
+        mode, n, ops = m
+        r = vf.mc(ctx, "MC_NodeImport", mc_cfg(n, ops, 2, mode), workers=2, timeout=900, heap="3g", expect_ok=False, label="MC_NodeImport/refute-" + mode)
         if "RejectIsIdentity" not in r.inv_violated:
             raise vf.Infra("model selftest: TLC did not refute design '%s' (invariant vacuous?):\n%s" % (mode, r.tail(30)))
-        ctx.cov["mc_runs"][-1]["refuted"] = True
-        # states of refuted designs are not evidence for the property
-        ctx.cov["states"] -= r.distinct
-        ctx.cov["transitions"] -= r.generated
+        return r
+    with cf.ThreadPoolExecutor(1 if LIGHT else 3) as ex:
+        fh = [ex.submit(hold, h) for h in holds]
+        fr = [ex.submit(refuted, m) for m in refute]
+        for f in fh:
+            f.result()
+        for f in fr:
+            r = f.result()
+            # states of refuted designs are not evidence for the property
+            ctx.cov["states"] -= r.distinct
+            ctx.cov["transitions"] -= r.generated
+    for e in ctx.cov["mc_runs"]:
+        if "refute-" in e["label"]:
+            e["refuted"] = True
 
 
 def generate(ctx):
@@ -110,6 +125,29 @@ def split_scenarios(lines):
     return scen
 
 
+def corrupted(usable):
+    """Two corruptions of a recorded scenario: run C's last accepted import reports another root;
+    a GetState of a committed header after a rejection returns other key-values."""
+    out = []
+    for s in usable:
+        ev = [json.loads(x) for x in s]
+        acc_c = [i for i, e in enumerate(ev) if e["ev"] == "Import" and e["run"] == "C" and e["ok"]]
+        if acc_c and len(out) == 0:
+            t = [dict(e) for e in ev]
+            t[acc_c[-1]]["root"] += 1000
+            out.append(("state root of an accepted import differs on the second fresh node", [json.dumps(e) for e in t]))
+        rej_a = [i for i, e in enumerate(ev) if e["ev"] == "Import" and e["run"] == "A" and not e["ok"] and e["gets"] and e["gets"][0]["found"]]
+        if rej_a and len(out) == 1:
+            t = json.loads(json.dumps(ev))
+            t[rej_a[0]]["gets"][0]["kv"] += 1000
+            out.append(("GetState(genesis) returns other key-values after a rejected import", [json.dumps(e) for e in t]))
+        if len(out) == 2:
+            break
+    if len(out) < 2:
+        raise vf.Infra("selftest: no scenario to corrupt")
+    return out
+
+
 def run(ctx):
     ctx.assumptions += [
         "the Bandersnatch VRF is the deterministic pure-Go stand-in (harness/standin/vrf): seals, entropy sources and ticket proofs are forged tags that the stand-in's verifier accepts, so sealing rules are exercised but no cryptography",
@@ -145,6 +183,7 @@ def run(ctx):
     st = {"imports": 0, "accepted": 0, "rejected": 0, "retries": 0, "accepted_after_rejection": 0, "gets": 0,
           "unexpected_verdicts": 0, "scen_with_rejection": 0, "epoch_crossings": 0}
     by_kind, unexpected = {}, []
+    side = {"checked": 0, "mismatch": 0}
     for s in scen:
         head = json.loads(s[0])
         if not head["built"]:
@@ -163,6 +202,13 @@ def run(ctx):
                 st["gets"] += len(e["gets"])
             elif e["ev"] == "Import":
                 st["gets"] += len(e["gets"])
+                if e["ok"]:
+                    # side condition (not a C26 verdict): the root ImportBlock returned is the reference
+                    # Merkle root of what GetState returns for that block
+                    for g in e["gets"]:
+                        if g["b"] == e["x"]:
+                            side["checked"] += 1
+                            side["mismatch"] += (not g["found"]) or g["kvroot"] != e["root"]
                 if "GO PANIC" in e["err"]:
                     raise vf.Infra("ImportBlock panicked (not a C26 verdict): %s" % ln[:300])
                 if run_ == "A":
@@ -187,8 +233,11 @@ def run(ctx):
         st["scen_with_rejection"] += any_rej
     if unbuilt and (len(unbuilt) * 10 > len(scen) or ctx.replay):
         raise vf.Infra("block builder could not build %d of %d scenarios, e.g. %s" % (len(unbuilt), len(scen), unbuilt[:3]))
-    ctx.cov.update({"scenarios": len(usable), "scenarios_not_built": len(unbuilt), "driver": st, "verdicts_by_recipe": by_kind,
+    ctx.cov.update({"scenarios": len(usable), "scenarios_not_built": len(unbuilt), "not_built_samples": unbuilt[:5], "driver": st, "verdicts_by_recipe": by_kind,
                     "unexpected_verdict_samples": unexpected})
+    ctx.cov["side_condition_getstate_root_equals_import_root"] = side
+    if side["mismatch"]:
+        vf.log("  WARNING (side condition, not the C26 verdict): GetState of a freshly imported block does not merklize to the root ImportBlock returned in %d of %d cases" % (side["mismatch"], side["checked"]))
     ctx.cov["evaluations"] = sum(len(s) - 1 for s in usable) + st["gets"]
     ctx.cov["distinct_nontrivial"] = st["scen_with_rejection"]
     ctx.cov["rule"] = ("evaluations = recorded SetState/ImportBlock/GetState answers over runs A, B, C of every scenario; "
@@ -207,6 +256,27 @@ def run(ctx):
         shards.append(cur)
     vf.validate_trace(ctx, "NodeImport_Trace", shards, stateful=True, par=3 if (ctx.quick or LIGHT) else 10, timeout=1500, heap="3g",
                       what="an answer of the node is not a function of (imports accepted so far, request): a rejected block left a trace, or two fresh nodes disagree")
+
+    # ---- selftest: the judge is live (a corrupted answer must be rejected)
+    if (getattr(ctx, "selftest", False) or not ctx.quick) and not ctx.violations and not ctx.replay:
+        for what, lines in corrupted(usable):
+            sub = vf.Ctx(ctx.pid, ctx.tier, ctx.seed)
+            sub.kf = ctx.kf
+            try:
+                import contextlib
+                import io
+                with contextlib.redirect_stdout(io.StringIO()):
+                    n = vf.validate_trace(sub, "NodeImport_Trace", [lines], stateful=True, par=1, timeout=600, heap="2g")
+                for _, p in sub.violations:
+                    try:
+                        os.remove(p)
+                    except OSError:
+                        pass
+            finally:
+                sub.cleanup()
+            if n == 0:
+                raise vf.Infra("selftest: corrupted trace accepted (%s)" % what)
+            vf.log("  selftest: rejected as expected: %s" % what)
 
     # ---- the binding must have been exercised (after V: a violation outranks these)
     if not ctx.violations and not ctx.replay:
